@@ -75,6 +75,11 @@ pub fn exec(op: &str, a: &Value) -> Option<Value> {
             json!({"t": rel_of(*ns), "w": int(w), "day": int(dday), "sod": int((t.hour() as i64 * 60 + t.minute() as i64) * 60 + t.second() as i64), "off": int(*off as i64 / 1_000_000_000),
                    "ti": rel_of(*ti), "cmp": [int(cmp[0]), int(cmp[1]), int(cmp[2])]})
         }),
+        // PlainDate.toZonedDateTime without a time (start of day) or with the time 00:00 (wall-clock midnight, compatible)
+        "Zoned.fromDate" => run(|| { let f = fields_of(js::i(a, "day") * 86_400, 0);
+            let d = PlainDate::try_new(f.0, f.1, f.2, iso())?;
+            let t = if js::s(a, "tt") == "none" { None } else { Some(PlainTime::try_new(0, 0, 0, 0, 0, 0)?) };
+            d.to_zoned_date_time_with_provider(time_zone_for(&z, false), t, &p) }, |x| rel_of_plain(x.epoch_nanoseconds().as_i128())),
         // the same kind of string given as a relativeTo option
         "Zoned.relTo" => run(|| {
             let f = fields_of(js::i(a, "w"), SUB_NS);
